@@ -2,9 +2,12 @@
    pool bookkeeping and the stream demultiplexing are proved for ALL interleavings of the
    model's lock regions; absence of data races and the agreement of the model's atomic steps
    with the Go code are OBSERVED by the harness under the race detector, not proved).
-   Only statements, `exact`, Print Assumptions.  Models: Model/Pool.v, Model/Demux.v. *)
+   Only statements, `exact`, Print Assumptions.  Models: Model/Pool.v (HTTP/1.1 pool),
+   Model/Demux.v, Model/H2Pool.v (HTTP/2 connection cache + stream table), Model/H3Cache.v
+   (HTTP/3 connection cache). *)
 From Coq Require Import List ZArith.
-From ReqV Require Import Lib.Bytes Model.Pool Model.Demux Proofs.PoolProofs Proofs.DemuxProofs.
+From ReqV Require Import Lib.Bytes Model.Pool Model.Demux Model.H2Pool Model.H3Cache
+  Proofs.PoolProofs Proofs.DemuxProofs Proofs.H2PoolProofs Proofs.H3CacheProofs.
 Import ListNotations.
 
 (* an HTTP/1.1 connection is handed to at most one request at a time, and is never in the idle
@@ -89,6 +92,144 @@ Theorem C09_demux_independent : forall open wire i,
   demux open wire i = demux open (filter (fun fr => Nat.eqb (fst fr) i) wire) i.
 Proof. exact demux_independent. Qed.
 Print Assumptions C09_demux_independent.
+
+(* ---------- HTTP/2: connection cache and stream table (Model/H2Pool.v) ---------- *)
+
+(* stream ids of a connection are pairwise distinct, odd and below nextStreamID - after EVERY
+   event sequence *)
+Theorem C09_h2_stream_ids : forall evs c, let s := h2_run evs in
+  NoDup (map fst (c_streams s c)) /\
+  (forall sid r, In (sid, r) (c_streams s c) -> Nat.odd sid = true /\ sid < c_next s c) /\
+  Nat.odd (c_next s c) = true /\ NoDup (c_hist s c).
+Proof. exact h2_stream_ids. Qed.
+Print Assumptions C09_h2_stream_ids.
+
+(* a request owns stream sid of connection c iff cc.streams maps sid to it; no two requests own
+   the same (connection, stream id) *)
+Theorem C09_h2_stream_owner : forall evs, let s := h2_run evs in
+  (forall r c sid, r_phase s r = ROpen c sid <-> In (sid, r) (c_streams s c)) /\
+  (forall r1 r2 c sid, r_phase s r1 = ROpen c sid -> r_phase s r2 = ROpen c sid -> r1 = r2) /\
+  (forall r c sid, r_phase s r = ROpen c sid -> stream_owner (c_streams s c) sid = Some r).
+Proof. exact h2_stream_owner. Qed.
+Print Assumptions C09_h2_stream_owner.
+
+(* responses are never mixed up on a multiplexed connection: in every reachable state a DATA
+   frame for (c, sid) reaches the request that owns that stream, and changes no other request *)
+Theorem C09_h2_frame_to_owner_only : forall evs c sid p r, let s := h2_run evs in
+  let s' := h2_step s (H2Frame c sid p) in
+  (r_phase s r = ROpen c sid -> r_recv s' r = r_recv s r ++ [p]) /\
+  (r_phase s r <> ROpen c sid -> r_recv s' r = r_recv s r).
+Proof. exact h2_frame_to_owner_only. Qed.
+Print Assumptions C09_h2_frame_to_owner_only.
+
+Theorem C09_h2_recv_only_by_frames : forall s e r,
+  (forall c sid p, e <> H2Frame c sid p) -> r < n_rid s -> r_recv (h2_step s e) r = r_recv s r.
+Proof. exact h2_recv_only_by_frames. Qed.
+Print Assumptions C09_h2_recv_only_by_frames.
+
+(* a stream id is never used twice on a connection (so a late frame of a finished request can
+   never be taken for a frame of a later one) *)
+Theorem C09_h2_stream_id_fresh : forall evs r retry c sid, let s := h2_run evs in
+  let s' := h2_step s (H2Open r retry) in
+  r_phase s' r = ROpen c sid -> r_phase s r <> ROpen c sid ->
+  sid = c_next s c /\ ~ In sid (c_hist s c) /\ (forall old, In old (c_hist s c) -> old < sid) /\
+  In sid (c_hist s' c).
+Proof. exact h2_stream_id_fresh. Qed.
+Print Assumptions C09_h2_stream_id_fresh.
+
+(* idle-connection closing running concurrently: closeIfIdle never closes a connection on
+   which a request holds a reservation or an open stream *)
+Theorem C09_h2_close_idle_safe : forall evs c, let s := h2_run evs in
+  let s' := h2_step s H2CloseIdle in
+  c_closed s c = false -> c_closed s' c = true ->
+  forall r, r_phase s r <> RReserved c /\ (forall sid, r_phase s r <> ROpen c sid).
+Proof. exact h2_close_idle_safe. Qed.
+Print Assumptions C09_h2_close_idle_safe.
+
+(* at most one dial in flight per authority *)
+Theorem C09_h2_one_dial_per_key : forall evs cl1 cl2, let s := h2_run evs in
+  cl1 < n_call s -> cl2 < n_call s -> call_res s cl1 = None -> call_res s cl2 = None ->
+  call_key s cl1 = call_key s cl2 -> cl1 = cl2.
+Proof. exact h2_one_dial_per_key. Qed.
+Print Assumptions C09_h2_one_dial_per_key.
+
+(* p.conns lists a connection at most once, under its own key, and never after MarkDead *)
+Theorem C09_h2_pool_wellformed : forall evs k, let s := h2_run evs in
+  NoDup (p_conns s k) /\
+  (forall c, In c (p_conns s k) -> c_key s c = k /\ c_dead s c = false /\ c < n_cid s) /\
+  (forall c, c_dead s c = true -> ~ In c (p_conns s k)).
+Proof. exact h2_pool_wellformed. Qed.
+Print Assumptions C09_h2_pool_wellformed.
+
+(* streamsReserved counts exactly the requests between ReserveNewRequest and the start of
+   their RoundTrip *)
+Theorem C09_h2_reservations_accounted : forall evs c, let s := h2_run evs in
+  c_reserved s c = length (c_resv s c) /\ NoDup (c_resv s c) /\
+  (forall r, In r (c_resv s c) <-> r_phase s r = RReserved c).
+Proof. exact h2_reservations_accounted. Qed.
+Print Assumptions C09_h2_reservations_accounted.
+
+(* open + reserved streams stay within the peer's MAX_CONCURRENT_STREAMS as long as the peer
+   never lowered it (non-strict mode) *)
+Theorem C09_h2_concurrency_limit : forall evs c, let s := h2_run evs in
+  c_lowered s c = false -> length (c_streams s c) + c_reserved s c <= c_max s c.
+Proof. exact h2_concurrency_limit. Qed.
+Print Assumptions C09_h2_concurrency_limit.
+
+(* forgetStreamID's panic "forgetting unknown stream id" is unreachable *)
+Theorem C09_h2_never_panics : forall evs, h2_panicked (h2_run evs) = false.
+Proof. exact h2_never_panics. Qed.
+Print Assumptions C09_h2_never_panics.
+
+(* soundness of the snapshot check run on the real HTTP/2 pool by Model/C09Run.v *)
+Theorem C09_h2_reachable_snapshot_ok : forall evs ks, let s := h2_run evs in
+  (forall c, c_lowered s c = false) -> h2snap_ok (h2snap_of s ks) = true.
+Proof. exact h2_reachable_snapshot_ok. Qed.
+Print Assumptions C09_h2_reachable_snapshot_ok.
+
+(* ---------- HTTP/3: connection cache (Model/H3Cache.v) ---------- *)
+
+Theorem C09_h3_usecount : forall evs cl, let s := h3_run evs in
+  cl_use s cl = Z.of_nat (length (cl_users s cl) + cl_leak s cl) /\
+  NoDup (cl_users s cl) /\
+  (forall q, In q (cl_users s cl) <-> (q_phase s q = Q3Wait cl \/ q_phase s q = Q3Run cl)).
+Proof. exact h3_usecount. Qed.
+Print Assumptions C09_h3_usecount.
+
+(* CloseIdleConnections closes a cached QUIC connection only when no request holds it *)
+Theorem C09_h3_close_idle_safe : forall evs cl, let s := h3_run evs in
+  let s' := h3_step s E3CloseIdle in
+  cl_closed s cl = false -> cl_closed s' cl = true ->
+  forall q, q_phase s q <> Q3Wait cl /\ q_phase s q <> Q3Run cl.
+Proof. exact h3_close_idle_safe. Qed.
+Print Assumptions C09_h3_close_idle_safe.
+
+Theorem C09_h3_one_client_per_host : forall evs h1 h2 cl, let s := h3_run evs in
+  clients s h1 = Some cl -> clients s h2 = Some cl -> h1 = h2.
+Proof. exact h3_one_client_per_host. Qed.
+Print Assumptions C09_h3_one_client_per_host.
+
+Theorem C09_h3_reachable_snapshot_ok : forall evs hs n, let s := h3_run evs in
+  (forall cl, cl_leak s cl = 0) -> (forall cl, length (cl_users s cl) <= n) ->
+  h3snap_ok n (map (fun h => match clients s h with Some cl => cl_use s cl | None => 0%Z end) hs) = true.
+Proof. exact h3_reachable_snapshot_ok. Qed.
+Print Assumptions C09_h3_reachable_snapshot_ok.
+
+(* non-vacuity of the HTTP/2 and HTTP/3 machines: two requests share one dialled connection with
+   stream ids 1 and 3, a third id is 5 after the first finished; the HTTP/3 client is closed by
+   CloseIdleConnections only after its request finished *)
+Example C09_h2_h3_nonvacuous :
+  let evs := [H2Get 4; H2Get 4; H2DialDone 0 true; H2Wake 0 false; H2Wake 1 false;
+              H2Open 0 false; H2Open 1 false; H2Frame 0 3 (bs "b"); H2Frame 0 1 (bs "a");
+              H2End 0 true; H2Get 4; H2Open 2 false; H2CloseIdle] in
+  let s := h2_run evs in
+  r_phase s 1 = ROpen 0 3 /\ r_phase s 2 = ROpen 0 5 /\ r_recv s 0 = [bs "a"] /\ r_recv s 1 = [bs "b"] /\
+  n_call s = 1 /\ p_conns s 4 = [0] /\ c_closed s 0 = false /\ c_hist s 0 = [5; 3; 1] /\
+  let t := h3_run [E3Get 2; E3CloseIdle; E3DialDone 0 true; E3Proceed 0; E3CloseIdle;
+                   E3Finish 0 true false] in
+  clients t 2 = Some 0 /\ cl_closed t 0 = false /\ cl_use t 0 = 0%Z /\
+  cl_closed (h3_step t E3CloseIdle) 0 = true /\ clients (h3_step t E3CloseIdle) 2 = None.
+Proof. vm_compute. repeat split. Qed.
 
 (* non-vacuity: a run with a limit of one connection per host in which a second request waits,
    gets the first request's connection by late binding, and the connection ends up idle *)
